@@ -190,6 +190,7 @@ func (m *Model) Run(hist []string) *proto.Result {
 		var ok bool
 		var aerr error
 		injectedBefore := seam.Injected
+		_, _, tkBefore := w.I.W.VerifQueueLens()
 		func() {
 			defer func() {
 				if e := recover(); e != nil {
@@ -222,6 +223,10 @@ func (m *Model) Run(hist []string) *proto.Result {
 			// storage works again
 			failedOps = append(failedOps, ev)
 			res.Info["ops_failed_under_fault"]++
+			// an operation that reports failure must not have handed work to the worker
+			if _, _, tk := w.I.W.VerifQueueLens(); tk > tkBefore && tkBefore >= 0 {
+				res.Viol = append(res.Viol, fmt.Sprintf("%s reported failure (%v) but left %d new task(s) queued for the worker", ev, aerr, tk-tkBefore))
+			}
 			continue
 		}
 		if aerr != nil {
